@@ -246,18 +246,43 @@ def rule_cm_window(check, rules):
     ps2 = it2.run(ex)
     check.absorb(it2)
     ok_exit = False
+    skipping = None
+    deleting = None
     for p in ps2:
         for e in p.effects:
             if e.kind == 'loop':
                 for sp in e.sub:
-                    if any(x.kind == 'store_attr' and x.extra == 'dynamic' for x in sp.effects) and sp.status == 'continue':
+                    sets_ = [x for x in sp.effects if x.kind == 'store_attr' and x.extra == 'dynamic']
+                    if sets_ and sp.status == 'continue':
                         ok_exit = True
+                    if not sets_ and sp.status in ('continue', 'fall'):
+                        skipping = sp
+                    if any(x.kind == 'del_attr' for x in sp.effects):
+                        deleting = sp
     key = '%s|restores' % ex.key
-    if ok_exit:
+    if ok_exit and skipping is not None:
+        gl = ' & '.join(show_lit(l) for l in skipping.lits)[:160]
+        check.violation(rules['restore'], site_of(ex, ex.node), '__exit__ skips the restoration of a saved attribute under %s: what __enter__ '
+                        'removed from the object itself is not put back (ordinary lookup may still find a class-level attribute of that name)'
+                        % (gl or 'some condition'), key=key, guards=gl,
+                        witness='an instance whose class also defines __wrapped__/__signature__: its own attribute is gone after retrieval')
+    elif ok_exit:
         check.holds(rules['restore'], site_of(ex, ex.node), '__exit__ re-sets every saved attribute', key=key)
     else:
         check.violation(rules['restore'], site_of(ex, ex.node), '__exit__ does not restore every saved attribute', key=key,
                         witness='f.__wrapped__ is lost after sigtools.signature(f)')
+    # ---- __exit__ only ever puts attributes back (C17.R5): a deletion there removes, for good, an attribute that another
+    # thread's window restored in the meantime
+    if rules.get('exit_no_delete'):
+        key = '%s|no-delete' % ex.key
+        dels_ = [w_ for w_ in foreign_attr_writes(ex) if w_[3] in ('delattr', 'del')]
+        if dels_:
+            check.violation(rules['exit_no_delete'], site_of(ex, dels_[0][0]), '__exit__ deletes an attribute of the inspected object (%s): when two '
+                            'windows on the same function overlap, the one that found the attribute already set aside deletes what the other '
+                            'one has restored -- the function permanently loses it' % norm(dels_[0][0])[:50], key=key,
+                            witness='thread B enters while A has __wrapped__ set aside and leaves after A restored it')
+        else:
+            check.holds(rules['exit_no_delete'], site_of(ex, ex.node), '__exit__ never deletes an attribute of the inspected object', key=key)
     # ---- every use is a `with`
     for m in repo.modules.values():
         for node in ast.walk(m.tree):
